@@ -16,7 +16,7 @@ from ..envs import EnvA, Lit, find_literal, show_leaf, strictness, const_term, s
 from ..model import AnalysisError
 from ..tables import routing as T
 
-FLOOR = 345
+FLOOR = 355
 EXPLANATION = (
     "Static def-use/normal-form analysis of the 13 routing env classes (resolved through inheritance): the value "
     "graph of _step/_reset/get_action_mask is reconstructed from source; the stored mask must be a function of the "
